@@ -71,6 +71,15 @@ PROPS = {
              "EIRP: all 256 index bytes, +-3 ulp around every table entry, random float32 bit patterns, infinities, NaN, denormals",
              trusted=["gps hook VerifLeapTable", "time.Time arithmetic modelled as integer nanoseconds (no saturation inside 1678..2262)", "IEEE-754 binary64 division modelled exactly on integers (LW.fdivCeil), validated against Go on every payload-symbol op"],
              exhaustive_parts=["payload-symbol count: payload 0..255 x SF 5..12 x CR 1..4 x header x LDRO", "all 256 EIRP index bytes", "thorough: full airtime product"]),
+    "C16": P("requests through http.Handler.ServeHTTP (httptest recorder) built from the repo's own payload structs: join-requests and rejoin-requests type 0/1/2 with random keys, EUIs, nonces, NetIDs, DevAddrs, DLSettings (OptNeg both ways), "
+             "RxDelay, CFList absent / channel list / channel masks, NS and AS KEKs of 16/24/32 bytes or absent, boundary JoinNonces; 1 in 3 deliberately off: unknown DevEUI, wrong MIC, malformed SenderID / ReceiverID, JoinNonce overflow / negative, RxDelay out of range, "
+             "malformed CFList, invalid KEK sizes, wrong frame kind, truncated frame, DevEUI mismatch; plus batches of 3..8 requests sent from 2..8 goroutines at once through one handler and compared with the sequential answers",
+             trusted=["net/http, encoding/json transport and logrus are not modelled: the harness builds the JSON request and parses the JSON answer with the repo's own structs",
+                      "crypto/aes modelled by an arbitrary lawful block cipher in the theorems; the driver's executable AES is compared on every op",
+                      "the configuration callbacks are modelled by their return values (device keys, KEKs by label)",
+                      "independence of concurrent requests is observed (jsconc), not proved: the handler keeps no state between requests in the model by construction",
+                      "LW/Spec/JoinServer.lean: device-side processing and key derivations of LoRaWAN 1.0.x / 1.1 as remembered"],
+             stateful=False),
     "C17": P("Frequency: every Hz value 0..2999 (300000 in thorough), the 12.5 kHz raster 100 MHz..3 GHz, +-3 around every power of two and ten, random uint32 and +-2^52 values; Percentage: -200..300 exhaustively + random int32; "
              "JSON number texts (fixed boundary list: ties, subnormals, overflow, malformed; generated decimals with exponents, 1 in 5 mutated); HEX texts (upper/lower, 0x, odd length, bad characters); "
              "instants over years 0..9999 with whole-minute zone offsets -12h..+14h (year / leap-day / century boundaries forced), RFC 3339 texts incl. fractions, 24:00 offsets and character-level mutations; "
@@ -160,6 +169,14 @@ MANIFEST_TEXT = {
              "C20_ceil_exact (exact binary64 model, kernel-evaluated over the whole domain), C20_airtime_formula / _total / _mono, C20_eirp_table + C20_eirp (largest entry not exceeding x, for every float32). Go results are also judged against the spec formulas.",
         note="Trusted: Lean kernel; hooks + dump; the IERS date list and Semtech formula as transcribed; integer model of time.Time; the exact-float model. One genuine defect repaired (leap boundary one second early). sensitivity.go carries no clause and is not modelled.",
         technique="Lean 4 proof (induction over the leap table, kernel evaluation of an exact float model, monotonicity) + differential correspondence"),
+    "C16": dict(
+        text="Lean theorems for ANY lawful block cipher and all keys / EUIs / nonces / settings: C16_join_success (correct MIC + known device => Success; the device, modelled from the specification, decrypts the join-accept to exactly "
+             "JoinNonce | NetID | requested DevAddr | DLSettings | RxDelay | CFList, accepts its MIC, and the key envelopes open with the configured KEKs to the keys the device derives, 1.0 or 1.1 by OptNeg), C16_wrong_mic, C16_unknown_device, "
+             "C16_mirror (every answer), C16_key_derivations, C16_rejoin_success_partial + C16_rejoin_keys_differ. Composed from the C04 (MIC / join-accept encryption) and C17 (RFC 3394) theorems. "
+             "Differential runs through the real http.Handler; every Go answer is judged by the device-side specification.",
+        note="Known finding (recorded, not repaired: three pinned tests freeze the behaviour): rejoin answers carry 1.0-style session keys. Concurrency clause: observed with concurrent batches (and -race in the thorough tier of C10), not proved. "
+             "Trusted: JSON/HTTP transport, callbacks as return values, the specification transcription.",
+        technique="Lean 4 proof (composition of MIC, ECB, layout and key-wrap theorems over an abstract cipher) + differential correspondence through ServeHTTP"),
     "C17": dict(
         text="Lean theorems: C17_frequency_roundtrip (EVERY integer 0 <= f < 2^32 Hz survives float64 division by 10^6, exact print/parse, multiplication by 10^6 and math.Round - error analysis over an exact integer model of binary64), "
              "C17_percentage_roundtrip (0..1000, kernel evaluation), C17_hex_roundtrip (all byte strings, with/without 0x), C17_envelope_roundtrip (all keys, all 16/24/32-byte KEKs, any lawful block cipher), "
